@@ -14,6 +14,9 @@ REG = {
     "seqenum": ("translate_seqenum", "translate", "C18_seq_gen",
                 "harness/translate_seqenum.py + translate_enumcore.py (fixing rules, enumeration loops and index lookups of "
                 "SequenceBasedRoutingProblem; coq/theories/PyEnumCore.v, PySeq.v)"),
+    "arccons": ("translate_arccons", "translate", "C05_gen",
+                "harness/translate_arccons.py + translate_enumcore.py (objective / constraint assembly loops of "
+                "ArcBasedRoutingProblem; coq/theories/PyArcCons.v, sparse.coo_array at its dense meaning)"),
 }
 
 
